@@ -13,12 +13,12 @@ func init() { register("C11", checkC11) }
 const notifierMu = "handlerNotifier.(embedded mutex)"
 
 type streamSummary struct {
-	name            string
-	enq, drain      *Func
-	queue, running  *types.Var
-	handler         *types.Var
-	problems        []string
-	protocol        []string
+	name           string
+	enq, drain     *Func
+	queue, running *types.Var
+	handler        *types.Var
+	problems       []string
+	protocol       []string
 }
 
 func (p *Prog) summarizeStream(enq *Func) *streamSummary {
